@@ -182,10 +182,14 @@ class Pipeline:
                     file,
                     new_relative_path,
                 )
-                backlog.append((file.relative_path, new_relative_path))
+                backlog.append(
+                    (file.input_directory, file.relative_path, new_relative_path)
+                )
 
         while backlog:
-            source_path, destination_path = backlog.pop()
+            input_directory, source_path, destination_path = backlog.pop()
+            # Deferred paths are relative to the input directory of their file
+            os.chdir(input_directory)
             self.log.debug(
                 "Trying again to rename '%s' into '%s'", source_path, destination_path
             )
